@@ -509,7 +509,9 @@ func resolveDisableArray(r Exp, v, disable []Exp) ([]Exp, error) {
 	allTrue := true
 	for _, e := range v {
 		switch e := e.(type) {
-		case *RefExp, *NullExp:
+		case *NullExp:
+			return resolveDisableExp(e, disable)
+		case *RefExp:
 			allTrue = false
 			allFalse = false
 		case *BoolExp:
@@ -550,7 +552,9 @@ func resolveDisableMap(r Exp, v map[string]Exp, disable []Exp) ([]Exp, error) {
 	allTrue := true
 	for _, e := range v {
 		switch e := e.(type) {
-		case *RefExp, *NullExp:
+		case *NullExp:
+			return resolveDisableExp(e, disable)
+		case *RefExp:
 			allTrue = false
 			allFalse = false
 		case *BoolExp:
